@@ -168,6 +168,7 @@ type partial struct {
 	ReplayFile    string         `json:"replay_file,omitempty"`
 	FirstError    string         `json:"first_error,omitempty"`
 	Exhaustive    bool           `json:"exhaustive"`
+	DistinctCapped bool          `json:"distinct_capped,omitempty"`
 	EnumNote      string         `json:"enum_note,omitempty"`
 	Rule          string         `json:"rule"`
 	Assumptions   []string       `json:"assumptions,omitempty"`
@@ -197,6 +198,9 @@ func SetExtra(k string, v any) {
 	extraFacts[k] = v
 	extraMu.Unlock()
 }
+
+// maxDistinctPerShard bounds the per-process set of case hashes (≈ 16 bytes each plus map overhead).
+const maxDistinctPerShard = 600000
 
 func hash64(s string) uint64 {
 	h := fnv.New64a()
@@ -327,7 +331,11 @@ func (r *defRunner[C]) record(col *collector, c C, st Stats, err error) (fatal s
 			sig = string(raw)
 		}
 		h := hash64(sig)
-		if _, dup := col.hashes[h]; !dup {
+		if _, dup := col.hashes[h]; !dup && len(col.hashes) >= maxDistinctPerShard {
+			// memory cap: beyond it distinct cases are no longer recorded, so the reported
+			// distinct_nontrivial is a lower bound (flagged in the evidence)
+			col.p.DistinctCapped = true
+		} else if !dup {
 			col.hashes[h] = struct{}{}
 			// keep a few samples: the first three distinct non-trivial cases,
 			// then one at every power of four
